@@ -829,9 +829,31 @@ def argsort(a, **k):
     raise Unsupported("np.argsort on symbolic data (covered by the groupby contract)")
 
 
+def _fs_active():
+    c = Ctx.cur
+    return c is not None and c.ghost.get("fs") is not None
+
+
+def _concrete_values(a):
+    """numpy array of an SArr whose shape and elements are all constants, else None"""
+    if a.ndim != 1 or dim_const(a.shape[0]) is None:
+        return None
+    vals = [const_value(a._elem(z3.IntVal(i))) for i in range(dim_const(a.shape[0]))]
+    if _b.any(v is None for v in vals):
+        return None
+    return _np.array([int(v) if a.kind == "i" else float(v) for v in vals], dtype=a.dtype_name)
+
+
 def sort(a, **k):
     if not _sym(a):
-        return _np.sort(a, **k)
+        r = _np.sort(a, **k)
+        return SArr.from_concrete(r) if (_fs_active() and r.ndim == 1 and r.size <= 64) else r
+    if isinstance(a, SArr):
+        v = _concrete_values(a)
+        if v is not None:
+            r = SArr.from_concrete(_np.sort(v))
+            r.dtype_name = a.dtype_name
+            return r
     raise Unsupported("np.sort on symbolic data")
 
 
